@@ -379,6 +379,10 @@ class RequestHandler:
         ``Date`` header).
 
         """
+        if not httputil._ABNF.field_name.fullmatch(name):
+            # add_header gets this check from HTTPHeaders.add; plain item
+            # assignment, which is used here, does not validate anything.
+            raise ValueError("Invalid header name %r" % name)
         self._headers[name] = self._convert_header_value(value)
 
     def add_header(self, name: str, value: _HeaderTypes) -> None:
